@@ -97,14 +97,6 @@ Theorem C44_valid_paths_exact :
 Proof. exact valid_paths_exact. Qed.
 Print Assumptions C44_valid_paths_exact.
 
-(* without group-kind fields "names" is plain field-name lookup *)
-Theorem C44_names_plain :
-  forall sc md seg fd,
-  (forall m f r, In m sc -> In f (m_fields m) -> f_kind f <> KGroup r) ->
-  (names sc md seg fd <-> exists m, nth_error sc md = Some m /\ by_name (m_fields m) seg = Some fd).
-Proof. exact names_plain. Qed.
-Print Assumptions C44_names_plain.
-
 Theorem C44_is_valid_exact :
   forall sc root paths,
   fm_is_valid sc root paths = true <-> Forall (fun p => path_valid sc root p = true) paths.
@@ -123,25 +115,21 @@ Theorem C44_append_exact :
 Proof. exact append_exact. Qed.
 Print Assumptions C44_append_exact.
 
-(* Reading "names a field" as "is the text-format name (TextName) of a field": REFUTED for the
-   code (known finding F16): a GroupKind field that is not group-like (editions DELIMITED
-   field whose name is not the lower-cased message name) cannot be named by any path. *)
-Theorem C44_valid_paths_text_name_refuted :
-  exists sc root p fd, names_text sc root p fd /\ nodot p /\ path_valid sc root p = false.
-Proof. exact valid_paths_text_name_refuted. Qed.
-Print Assumptions C44_valid_paths_text_name_refuted.
+(* The code's lookup rule [names] of C44_valid_paths_exact (ByName, then ByName(ToLower), each
+   checked against TextName) selects exactly the field whose text-format name is the segment,
+   for every well-formed schema (unique field names and text names per message; TextName is the
+   field name or a message name that lower-cases to it).  No exclusion: F16 is repaired. *)
+Theorem C44_names_text_exact :
+  forall sc md seg fd, schema_wf sc -> (names sc md seg fd <-> names_text sc md seg fd).
+Proof. exact names_text_exact. Qed.
+Print Assumptions C44_names_text_exact.
 
-(* ... and outside that class (every GroupKind field group-like; field names and text names
-   unique per message, as descriptor validation guarantees) the code's rule [names] of
-   C44_valid_paths_exact IS "segment = text-format name of a field" *)
-Theorem C44_valid_paths_text_name_except_F16 :
-  forall sc md seg fd,
-  (forall m f, In m sc -> In f (m_fields m) ->
-     match f_kind f with KGroup r => group_like sc f = true /\ r < length sc | _ => True end)%nat ->
-  (forall m, In m sc -> NoDup (map f_name (m_fields m)) /\ NoDup (map (text_name sc) (m_fields m))) ->
-  (names sc md seg fd <-> names_text sc md seg fd).
-Proof. exact names_text_except_F16. Qed.
-Print Assumptions C44_valid_paths_text_name_except_F16.
+Theorem C44_valid_paths_text_name_exact :
+  forall sc root p, schema_wf sc ->
+  (path_valid sc root p = true <->
+   exists segs, segs <> [] /\ Forall nodot segs /\ p = join_dots segs /\ reach_text sc root segs).
+Proof. exact valid_paths_text_name_exact. Qed.
+Print Assumptions C44_valid_paths_text_name_exact.
 
 (* ---- non-vacuity ---- *)
 Local Notation "'a'" := "a"%byte. Local Notation "'b'" := "b"%byte. Local Notation "'c'" := "c"%byte.
@@ -155,8 +143,16 @@ Example C44_ex_dot_least :   (* "a.b" < "a-" although '-' (0x2d) < '.' (0x2e) nu
   less_path [a; dot; b] [a; "-"%byte] = true.
 Proof. vm_compute. reflexivity. Qed.
 Example C44_ex_valid :
-  let sc := [ {| m_name := [a]; m_fields := [ {| f_name := [b]; f_kind := KMessage 0; f_rep := false |};
-                                            {| f_name := [c]; f_kind := KMessage 0; f_rep := true |} ] |} ] in
+  let sc := [ {| m_name := [a]; m_fields := [ {| f_name := [b]; f_text := [b]; f_kind := KMessage 0; f_rep := false |};
+                                            {| f_name := [c]; f_text := [c]; f_kind := KMessage 0; f_rep := true |} ] |} ] in
   path_valid sc 0 [b; dot; b; dot; c] = true /\ path_valid sc 0 [c; dot; b] = false /\
   path_valid sc 0 [b; dot] = false /\ path_valid sc 0 [] = false.
+Proof. vm_compute. auto. Qed.
+(* F16 regression: a DELIMITED field "c" of message type "a" that is not group-like is named "c";
+   a group-like field "a" of type "A" is named "A" *)
+Example C44_ex_text_name :
+  let sc := [ {| m_name := ["A"%byte]; m_fields := [ {| f_name := [c]; f_text := [c]; f_kind := KGroup 0; f_rep := false |};
+                                                   {| f_name := [a]; f_text := ["A"%byte]; f_kind := KGroup 0; f_rep := false |} ] |} ] in
+  path_valid sc 0 [c] = true /\ path_valid sc 0 [c; dot; "A"%byte] = true /\ path_valid sc 0 ["A"%byte] = true /\
+  path_valid sc 0 [a] = false.
 Proof. vm_compute. auto. Qed.
